@@ -103,9 +103,15 @@ def thorough_templates(seed: int) -> list[tuple[Any, ...]]:
         r = rng.random()
         kind = 'unitary' if r < 0.5 else 'state' if r < 0.7 else 'system' if r < 0.88 else 'list'
         lvl = int(rng.choice([1, 1, 1, 2, 2, 3, 4]))
+        if kind == 'state':
+            # states only get past level 1 when nothing crashes (see report):
+            # keep most of them where a distance can be measured
+            lvl = int(rng.choice([1, 1, 1, 1, 1, 1, 2, 2, 3, 4]))
+        elif kind == 'system' and lvl == 4 and rng.random() < 0.7:
+            lvl = int(rng.choice([1, 2, 3]))
         o: dict[str, Any] = {'workers': int(rng.choice([1, 2, 4]))}
         o['eps'] = float(rng.choice([1e-8, 1e-8, 1e-6, 1e-4]))
-        qutrit = rng.random() < 0.12 and lvl <= 3
+        qutrit = rng.random() < (0.16 if kind == 'unitary' else 0.05) and lvl <= 3
         if qutrit:
             n = int(rng.integers(1, 3))
             rad = [3] * n
@@ -117,6 +123,8 @@ def thorough_templates(seed: int) -> list[tuple[Any, ...]]:
             n = int(rng.integers(1, hi + 1))
             if n == 4 and rng.random() < 0.5:
                 n = 3
+            if n == 1 and kind in ('state', 'system') and rng.random() < 0.85:
+                n = 2   # one-qudit states/systems: a few only
             rad = [2] * n
             gs = str(rng.choice(cc.QUBIT_GATESETS + ['rigetti', 'quantinuum']))
         if n == 4:
@@ -149,10 +157,13 @@ def thorough_templates(seed: int) -> list[tuple[Any, ...]]:
             k = int(rng.integers(3, 6))
             toks = []
             for _ in range(k):
-                toks.append(str(rng.choice(['u', 's', 'y'])) + str(int(rng.integers(1, 3))))
+                tk = str(rng.choice(['u', 's', 'y']))
+                toks.append(tk + str(int(rng.integers(1, 3)) if tk == 'u' or rng.random() < 0.1 else 2))
             label = ','.join(toks)
             o['with_mapping'] = bool(rng.random() < 0.5)
             lvl = min(lvl, 2)
+            if any(tk[0] == 's' for tk in toks):
+                lvl = 1   # state preparation crashes in its scan above level 1
         out.append((kind, label, rad, gs, lvl, o))
     return out
 
